@@ -194,7 +194,7 @@ func openSingle(name string, ropts ...resource.Option) *singleAPI {
 	return nil
 }
 
-func singleScenarios(boundMs int) []Scenario {
+func singleScenarios(boundMs int, thorough bool) []Scenario {
 	var res []Scenario
 	add := func(c SingleCase) {
 		cls := "single-item/" + c.Level + "/" + c.When + "/" + c.Action
@@ -217,6 +217,25 @@ func singleScenarios(boundMs int) []Scenario {
 		}
 		add(SingleCase{Adapter: name, Level: "server", When: "after-seed", Action: "del", Pre: i % 2})
 		add(SingleCase{Adapter: name, Level: "server", When: "after-seed", Action: "cancel", Pre: 1})
+	}
+	if thorough {
+		// the whole product at model level
+		for _, name := range singleNames {
+			for _, park := range []string{"icpt", "yield", ""} {
+				for _, action := range []string{"del", "cancel"} {
+					for pre := 0; pre <= 3; pre++ {
+						for _, bp := range []bool{true, false} {
+							for _, uo := range []bool{false, true} {
+								if park == "yield" && !uo {
+									continue
+								}
+								add(SingleCase{Adapter: name, Level: "model", Park: park, When: "at-return", Action: action, Pre: pre, BP: bp, UO: uo})
+							}
+						}
+					}
+				}
+			}
+		}
 	}
 	return res
 }
